@@ -22,6 +22,7 @@ VARIABLES nother, ndyn      \* stimuli after the prepared prefix: those that are
 gvars == <<vars, nother, ndyn>>
 
 PrepTpAll    == SUBSET Peers
+PrepTpFull   == {Peers}
 PrepTpBig    == {S \in SUBSET Peers : Cardinality(S) >= Cardinality(Peers) - 1}
 \* randomsub: the first k peers subscribed, k around RandomSubD
 PrepTpPrefix == {{PeerSeq[i] : i \in 1..k} : k \in {3, 6, 7, 8, 9} \cap (1..Len(PeerSeq))}
@@ -32,6 +33,7 @@ AlphaFanout  == {"sub", "score", "down", "direct", "hb", "publish"}
 AlphaFlood   == {"score", "direct", "sub", "publish"}
 AlphaDirect  == {"direct", "score", "graft", "idontwant", "publish", "msg"}
 AlphaBatch   == {"batch", "batchlocal"}
+AlphaIdw     == {"idontwant", "hb", "publish", "msgo"}
 AlphaPlain   == {"peer", "sub", "down", "subscribe", "publish", "local", "msg"}
 BoolBoth == BOOLEAN
 OnlyTrue == {TRUE}
@@ -46,7 +48,7 @@ GenInit ==
        ELSE /\ conn = Peers /\ ever = Peers /\ tp \in PrepTp /\ joined \in PrepJoined
             /\ mesh \in (IF Gossip /\ joined /\ PrepMesh THEN SUBSET Peers ELSE {{}})
             /\ fanKey = FALSE /\ fanout = {} /\ lastpub = NoPub /\ firstpub = NoPub /\ direct = {}
-            /\ score = [p \in Peers |-> 0] /\ unw = NoUnw /\ ticks = 1 /\ nmsg = 0 /\ fanLost = FALSE
+            /\ score = [p \in Peers |-> 0] /\ unw = NoUnw /\ idwcnt = [p \in Peers |-> 0] /\ ticks = 1 /\ nmsg = 0 /\ fanLost = FALSE
             /\ last = [kind |-> "none", fails |-> {}] /\ tags = {}
             /\ hist = (IF joined THEN <<H("subscribe", "", "", 0, FALSE)>> ELSE <<>>)
                       \o [i \in DOMAIN PeerSeq |-> H("peer", PeerSeq[i], ProtoOf[PeerSeq[i]], 0, PeerSeq[i] \in tp)]
@@ -58,7 +60,7 @@ GenStep ==
     \/ A("sub") /\ \E p \in Peers, b \in BOOLEAN : Sub(p, b)
     \/ A("graft") /\ \E p \in Peers : Graft(p)
     \/ A("direct") /\ \E p \in Peers : SetDirect(p)
-    \/ A("idontwant") /\ \E p \in Peers : IDontWant(p)
+    \/ A("idontwant") /\ \E p \in Peers, k \in Msgs : IDontWant(p, k)
     \/ A("down") /\ \E p \in Peers : Down(p)
     \/ A("score") /\ \E p \in Peers, v \in ScoreVals : SetScore(p, v)
     \/ A("subscribe") /\ Subscribe
@@ -68,6 +70,7 @@ GenStep ==
     \/ A("batch") /\ Publish(FALSE, TRUE)
     \/ A("batchlocal") /\ Publish(TRUE, TRUE)
     \/ A("msg") /\ \E s \in Peers, a \in Peers \cup {Outsider} : Forward(s, a)
+    \/ A("msgo") /\ \E s \in Peers : Forward(s, Outsider)
 
 Done    == nmsg = MaxMsgs \/ ndyn >= MaxDyn
 GenNext == /\ ~Done /\ GenStep /\ tags' = tags \cup LastTags'
